@@ -74,6 +74,14 @@ Theorem code_boost_chain_is_tree_path : forall t tr x p fuel, wf_ids t -> tree_o
   gen_get_boost_chain_ids fuel t x = Ok (rev (removelast p)).
 Proof. exact gen_boost_chain_is_tree_path. Qed.
 
+(** docstring rule 1 of is_opposite_helicity_state, "state 0 is never an opposite helicity state", about the code: on every
+    topology with distinct edge ids whose tree has distinct, non-negative final-state ids including 0 (and is more than
+    the single edge 0), the translated function answers False for state 0 *)
+Theorem code_state_zero_never_opposite : forall t tr, wf_ids t -> tree_of_topo t = Some tr -> NoDup (leaves tr) ->
+  (forall x, In x (leaves tr) -> 0 <= x) -> In 0 (leaves tr) -> tr <> Leaf 0 ->
+  gen_is_opposite_helicity_state t 0 = Ok false.
+Proof. exact gen_state_zero_never_opposite_topo. Qed.
+
 (** Instance theorem (re-checked on every run against the topologies qrules creates NOW, plus renumbered variants):
     on each of them the translated helpers agree, at every node, with the hand model Kin.v that the C07 theorems are
     about (attached final states, sibling, opposite-helicity flag, parent), and assert_isobar_topology accepts it. *)
@@ -117,4 +125,5 @@ Print Assumptions code_helpers_refine_Kin.
 Print Assumptions code_refinement_by_computation.
 Print Assumptions code_decay_chain_is_tree_path.
 Print Assumptions code_boost_chain_is_tree_path.
+Print Assumptions code_state_zero_never_opposite.
 Print Assumptions code_helpers_agree_with_Kin_on_current_topologies.
